@@ -62,6 +62,15 @@ CLAIMED.update({
 })
 
 CLAIMED.update({
+    "C16": ("model-based property testing of the client: the real client.Client on one end of transport.LinkedPeers inside a virtual-clock bubble, generated concurrent API scripts against a scripted router whose reply policy per request (now / delayed to the coincidence set around the response timeout / twice / after a foreign reply / ERROR / never) and invocation, interrupt and event schedule are generated; each return value is judged against what the scripted router did for that request (correlation tokens)",
+            "Exploration: a call returning another request's reply, a missing or mistimed ErrReplyTimeout, progress after return or out of order, a missing, duplicated or wrong-mode CANCEL, a handler run twice or answered twice, a context not cancelled by INTERRUPT or timeout, overlapping or reordered event handlers, a stuck receive loop (probe request after the script). Sampling.",
+            "A CANCEL that gets no answer may end in the context's error or ErrReplyTimeout; events and invocations are only scripted for subscriptions/registrations whose API call has returned; a third INVOCATION with the id of a running one is left to C17.", "DESIGN.md 4/C16"),
+    "C17": ("robustness property testing / structured fuzzing of the client: the C16 rig with a hostile script - raw messages of every type with generated ids, details and arguments of every value type, pass-through fields as a hostile client could set them, replies at the timeout instant, GOODBYE / ABORT / transport drop at generated instants, Close() racing with API calls",
+            "Exploration: a panic anywhere in the client (worker crash), an API call or Close() that does not return under the virtual clock, Done() not signalled after GOODBYE/ABORT/EOF, a later call succeeding on a dead session, a benign request unanswered after the hostile burst, a goroutine left in the bubble. Sampling.",
+            "Hostile values are Go values an in-process router peer can deliver; correlation is not judged under hostile replies (C16 does).", "DESIGN.md 4/C17"),
+})
+
+CLAIMED.update({
     "C09": ("model-based property testing of the handshake: generated authentication configurations x scripted adversarial handshakes (replay, wrong key, other user, malformed, silence, first-message violations, smuggled details) vs. an acceptance model with independent HMAC/Ed25519 verification, observed through a meta-API observer",
             "Exploration: soundness (WELCOME implies the model allows it and the response verifies against this handshake's challenge) and completeness (valid credentials are welcomed) per handshake, identity shown to others equals the authenticator's, nothing of an aborted peer is routed or listed. Sampling.",
             "Cryptographic strength of HMAC-SHA256/Ed25519 assumed; in-process peers without RequireLocalAuth are trusted by documented policy.", "DESIGN.md 4/C09"),
